@@ -213,3 +213,157 @@ Example C06_ex_where_close :
   where_close [[0#1; 0#1]; [0#1; 3#1]; [0#1; 6#1]]%Q [4#1; 4#1]%Q (Some [3; 4; 5]) = [0%nat; 1%nat] /\
   where_close [[0#1; 0#1]; [3#1; 4#1]]%Q [5#1; 5#1]%Q None = [].
 Proof. vm_compute. repeat split; reflexivity. Qed.
+
+(* ===================================================================== route T
+   Gen/find.v is regenerated on every run of ./check C06 from the CURRENT text of
+   trackpy/find.py by tools/py2coq_find.py (fail-closed): percentile_threshold,
+   where_close, drop_close and grey_dilation, statement by statement, over the
+   vocabulary of Model/PyFind.v.  scipy.ndimage.grey_dilation, np.percentile and
+   cKDTree.query_pairs are named primitives with the meaning Model/Dilation.v gives
+   them (np_percentile is a parameter); convert_to_int is Model/Dilation.convert_to_int.
+   The theorems below say that the generated functions ARE the model the theorems above
+   are about, for all inputs, and restate the headline theorems for the generated code.
+   Separations are non-negative: Python's int() truncates towards zero, and a negative
+   box size is an error in scipy. *)
+From TP Require Import Model.PyFind Proofs.FindGen.
+From TP Require Gen.find.
+
+(* percentile_threshold: NaN (None) when there is no non-zero pixel, else np.percentile of them *)
+Theorem C06_gen_percentile_threshold_is_model :
+  forall (np_percentile : list Z -> Q -> Q) (im : image) (percentile : Q),
+  Gen.find.percentile_threshold np_percentile im percentile =
+  match not_black im with [] => None | l => Some (np_percentile l percentile) end.
+Proof. exact gen_percentile_threshold_eq. Qed.
+Print Assumptions C06_gen_percentile_threshold_is_model.
+
+(* grey_dilation as generated from the source = the model, every image (integer or float),
+   separation, percentile, margin (None or a tuple), precise on or off *)
+Theorem C06_gen_grey_dilation_is_model :
+  forall (np_percentile : list Z -> Q -> Q) (is_float : bool) (im0 : image) (sep : list Q)
+         (percentile : Q) (margin : option (list Z)) (precise : bool),
+  Forall (fun s => (0 <= s)%Q) sep ->
+  Gen.find.grey_dilation np_percentile is_float im0 sep percentile margin precise =
+  grey_dilation (fun l => np_percentile l percentile) is_float im0 sep margin precise.
+Proof. exact gen_grey_dilation_eq. Qed.
+Print Assumptions C06_gen_grey_dilation_is_model.
+
+(* where_close / drop_close as generated = the model, for float rows (inj = identity), for the
+   integer rows grey_dilation hands over (inj = map inject_Z), for arrays and DataFrames *)
+Theorem C06_gen_where_close_is_model :
+  forall (A : Type) (inj : A -> list Q) (pos_is_frame : bool) (pos : list A) (sep : list Q)
+         (intensity : option (list Z)),
+  Gen.find.where_close inj pos_is_frame pos sep intensity = where_close (map inj pos) sep intensity.
+Proof. exact @gen_where_close_eq. Qed.
+Print Assumptions C06_gen_where_close_is_model.
+
+Theorem C06_gen_drop_close_is_model :
+  forall (A : Type) (inj : A -> list Q) (pos_is_frame : bool) (pos : list A) (sep : list Q)
+         (intensity : option (list Z)),
+  Gen.find.drop_close inj pos_is_frame pos sep intensity = drop_close inj pos sep intensity.
+Proof. exact @gen_drop_close_eq. Qed.
+Print Assumptions C06_gen_drop_close_is_model.
+
+(* the primitive behind int(e / np.sqrt(n)): for e = num/den >= 0 it is the integer k with
+   k sqrt(n) <= e < (k+1) sqrt(n); int(x) is the floor of a non-negative x *)
+Theorem C06_gen_int_primitives : forall (e : Q) (n : Z), 0 < n -> (0 <= e)%Q ->
+  (let k := int_div_sqrt e n in
+   0 <= k /\
+   k * k * n * (QDen e * QDen e) <= Qnum e * Qnum e < (k + 1) * (k + 1) * n * (QDen e * QDen e)) /\
+  py_int e = Qfloor e.
+Proof. exact (fun e n Hn He => conj (int_div_sqrt_spec e n Hn He) (py_int_floor e He)). Qed.
+Print Assumptions C06_gen_int_primitives.
+
+(* C06_maxima_exact for the generated grey_dilation *)
+Theorem C06_gen_maxima_exact :
+  forall (np_percentile : list Z -> Q -> Q) (percentile : Q) (is_float : bool) (im0 : image) (sep : list Q)
+         (margin : option (list Z)) (p : list Z),
+  let im := convert_to_int is_float im0 in
+  let ndim := Z.of_nat (length (shape im)) in
+  let sizes := map (box_size ndim) sep in
+  let mg := match margin with Some m => m | None => map (fun s => Qfloor (s / 2)) sep end in
+  Forall (fun s => (0 <= s)%Q) sep ->
+  length sep = length (shape im) -> length mg = length (shape im) ->
+  Forall (fun s => 1 <= s) sizes ->
+  (In p (Gen.find.grey_dilation np_percentile is_float im0 sep percentile margin false) <->
+   not_black im <> [] /\
+   in_bounds (shape im) p /\
+   (np_percentile (not_black im) percentile < inject_Z (pix im p))%Q /\
+   (forall q, in_box sizes p q -> pix im q <= pix im p) /\
+   outside_margin (shape im) mg p).
+Proof. exact gen_maxima_exact. Qed.
+Print Assumptions C06_gen_maxima_exact.
+
+Theorem C06_gen_maxima_nodup :
+  forall np_percentile percentile is_float im0 sep margin,
+  Forall (fun s => (0 <= s)%Q) sep ->
+  NoDup (Gen.find.grey_dilation np_percentile is_float im0 sep percentile margin false).
+Proof. exact gen_maxima_nodup. Qed.
+Print Assumptions C06_gen_maxima_nodup.
+
+(* C06_precise_subset / _separated / _justified for the generated grey_dilation *)
+Theorem C06_gen_precise_subset :
+  forall np_percentile percentile is_float im0 sep margin p,
+  Forall (fun s => (0 <= s)%Q) sep ->
+  In p (Gen.find.grey_dilation np_percentile is_float im0 sep percentile margin true) ->
+  In p (Gen.find.grey_dilation np_percentile is_float im0 sep percentile margin false).
+Proof. exact gen_precise_subset. Qed.
+Print Assumptions C06_gen_precise_subset.
+
+Theorem C06_gen_precise_separated :
+  forall np_percentile percentile is_float im0 sep margin,
+  Forall (fun s => (0 < s)%Q) sep ->
+  forall p q,
+  In p (Gen.find.grey_dilation np_percentile is_float im0 sep percentile margin true) ->
+  In q (Gen.find.grey_dilation np_percentile is_float im0 sep percentile margin true) ->
+  p <> q -> ~ closer_than_sep sep (map inject_Z p) (map inject_Z q).
+Proof. exact gen_precise_separated. Qed.
+Print Assumptions C06_gen_precise_separated.
+
+Theorem C06_gen_precise_justified :
+  forall np_percentile percentile is_float im0 sep margin,
+  Forall (fun s => (0 < s)%Q) sep ->
+  forall p,
+  In p (Gen.find.grey_dilation np_percentile is_float im0 sep percentile margin false) ->
+  ~ In p (Gen.find.grey_dilation np_percentile is_float im0 sep percentile margin true) ->
+  exists q, In q (Gen.find.grey_dilation np_percentile is_float im0 sep percentile margin false) /\ q <> p /\
+            closer_than_sep sep (map inject_Z q) (map inject_Z p) /\
+            pix (convert_to_int is_float im0) p <= pix (convert_to_int is_float im0) q.
+Proof. exact gen_precise_justified. Qed.
+Print Assumptions C06_gen_precise_justified.
+
+(* C06_where_close_exact / C06_drop_close_exact for the generated functions on float rows *)
+Theorem C06_gen_where_close_exact :
+  forall (pos_is_frame : bool) (pos : list (list Q)) (sep : list Q) (intensity : option (list Z)),
+  Forall (fun s => ~ (s == 0)%Q) sep ->
+  forall k,
+  In k (Gen.find.where_close (fun p => p) pos_is_frame pos sep intensity) <->
+  (k < length pos)%nat /\
+  exists j, (j < length pos)%nat /\ j <> k /\
+            closer_than_sep sep (nth j pos []) (nth k pos []) /\
+            ((inten_of intensity k < inten_of intensity j) \/
+             (inten_of intensity j = inten_of intensity k /\
+              ((total (rescale_pos (nth k pos []) sep) < total (rescale_pos (nth j pos []) sep))%Q \/
+               ((total (rescale_pos (nth j pos []) sep) == total (rescale_pos (nth k pos []) sep))%Q /\ (k < j)%nat)))).
+Proof. exact gen_where_close_spec. Qed.
+Print Assumptions C06_gen_where_close_exact.
+
+Theorem C06_gen_drop_close_exact :
+  forall (pos_is_frame : bool) (pos : list (list Q)) sep intensity x,
+  In x (Gen.find.drop_close (fun p => p) pos_is_frame pos sep intensity) <->
+  exists i, nth_error pos i = Some x /\
+            ~ In i (Gen.find.where_close (fun p => p) pos_is_frame pos sep intensity).
+Proof. exact gen_drop_close_exact. Qed.
+Print Assumptions C06_gen_drop_close_exact.
+
+(* non-vacuity: the generated code runs; on the example image it returns what the examples above show
+   (np.percentile stubbed by the constant 1; separation 1.5 is non-negative, box 2x2 >= 1) *)
+Example C06_gen_ex :
+  Gen.find.grey_dilation (fun _ _ => (1 # 1)%Q) false ex_img [3 # 2; 3 # 2]%Q (64 # 1)%Q (Some [0; 0]) false
+    = [[1; 1]; [1; 3]; [2; 3]] /\
+  Gen.find.grey_dilation (fun _ _ => (1 # 1)%Q) false ex_img [3 # 2; 3 # 2]%Q (64 # 1)%Q None true
+    = [[1; 1]; [1; 3]] /\
+  Gen.find.grey_dilation (fun _ _ => (60 # 1)%Q) true ex_img [3 # 2; 3 # 2]%Q (64 # 1)%Q (Some [2; 2]) true = [] /\
+  Gen.find.where_close (fun p => p) false [[1#1; 2#1]; [2#1; 1#1]]%Q [2#1; 2#1]%Q (Some [4; 4]) = [0%nat] /\
+  Gen.find.percentile_threshold (fun _ q => q) {| shape := [2]; data := Node [Leaf 0; Leaf 0] |} (64 # 1)%Q = None /\
+  Forall (fun s => (0 < s)%Q) [3 # 2; 3 # 2]%Q.
+Proof. vm_compute. repeat split; try reflexivity; repeat constructor. Qed.
